@@ -15,7 +15,9 @@ func TestGeneratorSelfCheck(t *testing.T) {
 	rapid.Check(t, func(rt *rapid.T) {
 		u := DefaultUniverse()
 		var g *Grammar
-		switch rapid.IntRange(0, 2).Draw(rt, "grammar") {
+		switch rapid.IntRange(0, 3).Draw(rt, "grammar") {
+		case 3:
+			g = Full(SpecialUniverse(), 3)
 		case 0:
 			g = Full(u, 3)
 		case 1:
